@@ -13,6 +13,7 @@
   * `history_eq_fresh`   after ANY history the state equals `start (current occupation)`
   * `observables_eq_fresh` hence E, deltaE_trial, the site sets and transitions() are functions of occ
   * `vacancy_guard`      the vacancy is never in the occupied or unoccupied set
+  * `energy_spec`        E() = sum of the energy interactions none of whose sites is unoccupied
   * `deltaE_exact`       for duplicate-free disjoint in-range arguments, `deltaE_trial` is exactly
                          `E(after update) − E(before)`
   * `deltaE_dup_counterexample`, `deltaE_overlap_counterexample`  the precondition is needed
@@ -632,6 +633,69 @@ theorem deltaE_exact {T : Table} {s : State} (h : Inv T s) (occs unoccs : List N
       congr 2
       ring_nf
     · simp [hmm, dEterm]
+
+
+/-! ### what the energy means -/
+
+theorem countZ_nonneg (m : Nat) (os : List Int) (rs : List (List Nat)) : 0 ≤ countZ m os rs := by
+  induction os generalizing rs with
+  | nil => simp [countZ]
+  | cons o os ih =>
+    cases rs with
+    | nil => simp [countZ]
+    | cons r rs =>
+      simp only [countZ]
+      have := ih rs
+      split <;> omega
+
+/-- the count of an interaction is zero exactly when no unoccupied site takes part in it -/
+theorem countZ_eq_zero_iff (m : Nat) (os : List Int) (rs : List (List Nat)) :
+    countZ m os rs = 0 ↔ ∀ (i : Nat) (r : List Nat), os[i]? = some 0 → rs[i]? = some r → m ∉ r := by
+  induction os generalizing rs with
+  | nil => simp [countZ]
+  | cons o os ih =>
+    cases rs with
+    | nil => simp [countZ]
+    | cons r rs =>
+      simp only [countZ]
+      have hnn := countZ_nonneg m os rs
+      constructor
+      · intro h i r' hi hr
+        cases i with
+        | zero =>
+          simp at hi hr; subst hi; subst hr
+          simp only [if_true] at h
+          have : (List.count m r : Int) = 0 := by omega
+          have : List.count m r = 0 := by omega
+          exact List.count_eq_zero.1 this
+        | succ i =>
+          have h2 : countZ m os rs = 0 := by split at h <;> omega
+          exact (ih rs).1 h2 i r' (by simpa using hi) (by simpa using hr)
+      · intro h
+        have h2 : countZ m os rs = 0 :=
+          (ih rs).2 (fun i r' hi hr => h (i + 1) r' (by simpa using hi) (by simpa using hr))
+        rw [h2]
+        by_cases ho : o = 0
+        · subst ho
+          have := h 0 r (by simp) (by simp)
+          have : List.count m r = 0 := List.count_eq_zero.2 this
+          simp [this]
+        · simp [ho]
+
+open Classical in
+/-- **Meaning of the energy**: under the invariant `E()` is the sum of the values of the energy
+    interactions none of whose sites is unoccupied (the cluster-expansion semantics of the table). -/
+theorem energy_spec {T : Table} {s : State} (h : Inv T s) (hne : T.nenergy ≤ T.value.size) :
+    energy T s = ((List.range T.nenergy).map fun m =>
+      if (∀ (i : Nat) (r : List Nat), s.occ[i]? = some 0 → T.rows[i]? = some r → m ∉ r) then T.value.getD m 0 else 0).sum := by
+  unfold energy
+  apply congrArg
+  apply List.map_congr_left
+  intro m hm
+  have hm' : m < T.value.size := by have := List.mem_range.1 hm; omega
+  have := h.cc_spec m
+  simp only [hm', if_true] at this
+  simp only [Array.getD_eq_getD_getElem?, this, Option.getD_some, countZ_eq_zero_iff]
 
 
 /-! ### the precondition of `deltaE_exact` is needed; non-vacuity -/
